@@ -529,4 +529,15 @@ theorem create_wrapper_matches_parser :
     (∀ a ∈ wrapperAssigns, okAssign a.1 a.2 = true) ∧
     (∀ f ∈ reads, (parserDefaults.lookup f).isSome = true) := by decide
 
+open Shroud.Gen.Cli in
+/-- **table theorem.**  `main.Config` binds no mutable object at class level,
+    and the lists/dictionary that the wrappers only ever mutate (`cfiles`,
+    `ffiles`, `pyfiles`, `fc_shared_helpers`) are created per instance in
+    `__init__`: a second `create_wrapper` call in one process starts from the
+    same empty configuration as a command-line run. -/
+theorem config_no_shared_state :
+    configClassMutable = [] ∧
+    (∀ n ∈ ["cfiles".toList, "ffiles".toList, "pyfiles".toList, "fc_shared_helpers".toList],
+      (n.map Char.toNat) ∈ configInitAttrs) := by decide
+
 end Shroud.Scope
